@@ -25,7 +25,9 @@ DRIVER = "files_driver.py"
 SHARD = 120
 MB = 1 << 20
 RULE = ("one case = one end-to-end trip (input + output file handler, record -> save on one of the three cassettes -> "
-        "fetch -> replay at different paths, the replayed path possibly holding a file already; contents include files "
+        "fetch -> replay at different paths, the replayed path possibly holding a file already, the case running in a "
+        "scratch current directory with recorded / replayed / holder.to_file paths given as absolute paths, bare file "
+        "names, './name', 'sub/name', 'sub/../name', or naming an absent directory; contents include files "
         "that are themselves complete encodings: zlib / gzip / raw deflate / bz2 / xz / zip blobs, base64 / base32 / "
         "hex / quoted-printable texts, json envelopes, pickles, byte-order marks), one sequence (several "
         "recordings replayed one after another / twice into the same path; recordings made one after another of ONE "
@@ -42,8 +44,10 @@ ASSUMPTIONS = ["file sizes below 2^53 bytes and a finite limit, so that Python's
                "what is restored); it may change freely BETWEEN two interceptions, whatever its size and timestamps",
                "jsonpickle's coding of bytes inside the stored JSON is invertible (oracle qp/qp_dec of model A; exercised "
                "end to end on every run through the three real cassettes)",
-               "the replayed path can be opened for writing"]
-TRUSTED = ["journalling wrapper around builtins.open / io.open (reads through other OS interfaces are not seen)",
+               "the replayed path can be opened for writing (its directory exists - in whichever form the path is "
+               "written: absolute, relative to the current directory, a bare file name)"]
+TRUSTED = ["journalling wrapper around builtins.open / io.open (reads through other OS interfaces are not seen; files are "
+           "identified by os.path.abspath of the name given to open)",
            "fake bucket behind the real S3BasicFacade; scratch files under /tmp/files-scratch-<pid>"]
 THEOREMS = ["C20_file_roundtrip", "C20_limit_honoured", "C20_b64_roundtrip", "C20_b64_alphabet", "C20_history_input",
             "C20_history_output"]
@@ -1069,7 +1073,7 @@ def search_harder(rng, bad_cases):
 
 MANIFEST = dict(
     design_ref='6/C20',
-    text='Coq theorems for every byte string, path, way of passing the path (keyword / position), file-system and quoted-printable oracle: record -> cassette -> replay writes exactly the recorded bytes at the path of the REPLAYED call (input handler) / yields a holder with exactly those bytes (output handler), also when the content is the placeholder text; above the limit the placeholder is recorded and the file is never opened; the size test is the exact rational comparison size > limit*2^20 with the three boundary corollaries and int(float(env)) for the environment variable; a concrete RFC 4648 base64 codec with b64dec(b64enc b) = b, alphabet and length laws. Model tied to /repo on every run: the real handlers are driven end to end through the real TapeRecorder and the three real cassettes (in-memory, file, S3 over a fake bucket) on contents {empty, all 256 byte values, newlines, placeholder and near-placeholder texts, random binary, multi-MB, and 48 contents that are themselves valid encodings (deflated / archived blobs at several levels and framings incl. truncated, bad-checksum and concatenated streams, base64 family and other transfer encodings, json / jsonpickle-looking / serialized-envelope texts, pickles, byte-order marks) - the bytes come back as recorded whatever they spell} x sizes limit-1/limit/limit+1 x explicit float / int / environment limits x keyword / position x static / instance, and at unit level (base64 text, size check, path lookup); Coq compares with the model by vm_compute; the direct predicate (restored bytes == original at the replayed path, holder content == original, above-limit files never opened and recorded as the placeholder) searches for a failing input. Histories on one path (theorems C20_history_input/_output: the k-th recording of a path is made of what the file holds at the k-th interception): the same recorded path intercepted repeatedly - across recordings and 2-5 times inside one operation, by input and output handlers in every order - with the file rewritten in between (same length, modification time stamped / kept / clock, in place / replaced).',
+    text='Coq theorems for every byte string, path, way of passing the path (keyword / position), file-system and quoted-printable oracle: record -> cassette -> replay writes exactly the recorded bytes at the path of the REPLAYED call (input handler) / yields a holder with exactly those bytes (output handler), also when the content is the placeholder text; above the limit the placeholder is recorded and the file is never opened; the size test is the exact rational comparison size > limit*2^20 with the three boundary corollaries and int(float(env)) for the environment variable; a concrete RFC 4648 base64 codec with b64dec(b64enc b) = b, alphabet and length laws. Model tied to /repo on every run: the real handlers are driven end to end through the real TapeRecorder and the three real cassettes (in-memory, file, S3 over a fake bucket) on contents {empty, all 256 byte values, newlines, placeholder and near-placeholder texts, random binary, multi-MB, and 48 contents that are themselves valid encodings (deflated / archived blobs at several levels and framings incl. truncated, bad-checksum and concatenated streams, base64 family and other transfer encodings, json / jsonpickle-looking / serialized-envelope texts, pickles, byte-order marks) - the bytes come back as recorded whatever they spell} x sizes limit-1/limit/limit+1 x explicit float / int / environment limits x keyword / position x static / instance, and at unit level (base64 text, size check, path lookup); Coq compares with the model by vm_compute; the direct predicate (restored bytes == original at the replayed path, holder content == original, above-limit files never opened and recorded as the placeholder) searches for a failing input. Histories on one path (theorems C20_history_input/_output: the k-th recording of a path is made of what the file holds at the k-th interception): the same recorded path intercepted repeatedly - across recordings and 2-5 times inside one operation, by input and output handlers in every order - with the file rewritten in between (same length, modification time stamped / kept / clock, in place / replaced). Path forms: trips and sequences also run with the scratch directory as current directory and the recorded / replayed / holder.to_file paths written as a bare file name, ./name, sub/name, sub/../name, an absolute path in a sub-directory (replayed form x positional / keyword x cassette deterministically in the quick tier) and nosuch/name (absent directory: correspondence only) - a path is an opaque name for the model, the bytes land at the file the replayed call names however it is written.',
     note='Trusted: Coq kernel + vm_compute; hand-written model; correspondence harness (fake bucket behind the real S3BasicFacade, journalling wrapper around open, substituted os.path.getsize for sizes that cannot be materialised); jsonpickle\'s coding of bytes is an oracle (model A) exercised end to end; float comparison exact for sizes < 2^53.',
     technique='Coq proof (lia + finite sweep over the 64 base64 digits, exact rationals for the limit) + model/implementation correspondence by vm_compute + direct predicate end to end',
 )
